@@ -75,6 +75,24 @@ def calculateDeploy (info : NodeInfo) (B maxShare : Int) (count : Int) (raw : Ra
   | .panic m => .panic m
   | .diverge => .diverge
 
+/-- `doGetNodeDeployCapacity` (the `Capacity` field) behind `GetNodesDeployCapacity`'s `Validate` -/
+def nodeDeployCapacity (info : NodeInfo) (B maxShare : Int) (raw : RawReq) (order : List String) : Outcome Int :=
+  match raw.validate with
+  | .ok w =>
+    if !w.bind then
+      if (info.cap.cpuMap.length : Int) * 1000 < w.cpuReq then .ok 0
+      else if w.memReq = 0 then .ok maxInt
+      else .ok (info.available.mem.tdiv w.memReq)
+    else
+      match getCPUPlans info [] B maxShare w.toReq order with
+      | .ok plans => .ok plans.length
+      | .err e => .err e
+      | .panic m => .panic m
+      | .diverge => .diverge
+  | .err e => .err e
+  | .panic m => .panic m
+  | .diverge => .diverge
+
 /-- `calculateNodeResource(nil, nil, usage, workloads, delta=true, incr=true)` -/
 def commitUsage (use : NodeRes) (ws : List Workload) : NodeRes :=
   ws.foldl (fun u w => u.add { cpuMap := w.cpuMap, mem := w.memReq, numaMem := w.numaMem }) use
